@@ -468,6 +468,29 @@ func GenGraph(r *Rand, o GraphOpts) *Graph {
 		}
 		g.stat("star-diamond")
 	}
+	if o.AllowStar && o.AllowCJS && !mods[0].CJS && r.Chance(1, 2) {
+		// export-star CYCLE whose members also star-export a CommonJS module: names that only exist at run
+		// time (the CommonJS exports) must be reachable through every member of the cycle, whatever the
+		// order of the star statements and whichever member is reached first.
+		g.Files["sc_d.cjs"] = "p(\"sc_d\");\nexports.scd = \"d\";\n"
+		xs := []string{"export * from \"./sc_a.js\";\n", "export * from \"./sc_d.cjs\";\n"}
+		if !o.AvoidInPlaceOrder && r.Bool() { // (CommonJS star first = in-place evaluation before a hoisted ES sibling)
+			xs[0], xs[1] = xs[1], xs[0]
+		}
+		g.Files["sc_x.js"] = xs[0] + xs[1] + "p(\"sc_x\");\nexport const scx = \"x\";\n"
+		g.Files["sc_a.js"] = "export * from \"./sc_x.js\";\np(\"sc_a\");\nexport const sca = \"a\";\n"
+		first := []string{"sc_a", "sc_x"}[r.Intn(2)]
+		m0 := mods[0]
+		// (an entry point that itself says `export *` of the cycle is NOT generated: with the esm output format the
+		// entry's export list is static, so run-time-only CommonJS names cannot be part of it — documented limitation)
+		switch r.Intn(2) {
+		case 0:
+			m0.Source = "import * as scns from \"./" + first + ".js\";\n" + m0.Source + "p(\"m0:sc\", Object.keys(scns).sort(), scns.scd, scns.sca, scns.scx);\n"
+		default:
+			m0.Source = "import { scd as scd1, sca as sca1 } from \"./" + first + ".js\";\n" + m0.Source + "p(\"m0:sc\", scd1, sca1);\n"
+		}
+		g.stat("star-cycle-cjs")
+	}
 	if o.DualPkg {
 		g.Files["node_modules/pkg/package.json"] = "{\"name\": \"pkg\", \"main\": \"./main.js\", \"module\": \"./module.js\"}\n"
 		g.Files["node_modules/pkg/main.js"] = "p(\"pkg:main\");\nexports.v = \"from-main\";\n"
